@@ -39,8 +39,11 @@ class Atom:
         self.strict = strict        # usable in most_specific files (ranking unambiguous between statement and text)
 
 
+_THEME = [None]          # the tokens of the file being generated (a small theme makes several rules match one transaction)
+
+
 def _lit(rnd, n=None):
-    t = rnd.choice(TOK)
+    t = rnd.choice(_THEME[0] or TOK)
     if rnd.random() < 0.3:
         t = t.lower() if rnd.random() < 0.5 else t.title()
     return t
@@ -182,6 +185,7 @@ def gen_file(rnd, mode, focus):
         if rnd.random() < 0.3:
             xform.append(('field.kind', 'uppercase(field.kind)'))
     n = rnd.choice([1, 2, 2, 3, 3, 4, 5, 6, 8]) if focus != 'c09' else rnd.choice([2, 3, 3, 4, 4, 5, 6])
+    _THEME[0] = rnd.sample(TOK, 5) if (focus == 'c09' or rnd.random() < 0.3) else None
     dup_names = rnd.random() < 0.2
     rules = []
     shared = None
@@ -197,6 +201,13 @@ def gen_file(rnd, mode, focus):
         if focus in ('c09', 'c08') and shared is not None and rnd.random() < 0.35:
             text, pat, kinds, lits = shared          # byte-identical expression in two rules: exact ties / priority decides; each
             # rule reads it with ITS OWN let: bindings (one rule's failure says nothing about the other's)
+        elif focus == 'c09' and shared is not None and shared[3] and rnd.random() < 0.3 and ('"%s"' % shared[3][0]) in shared[0]:
+            # the same structure with ONE literal exchanged (written in the other quote style): pattern count and constraint kinds tie,
+            # the total length of the pattern text decides
+            text, pat, kinds, lits = shared
+            new = rnd.choice([t for t in (_THEME[0] or TOK)])
+            text = text.replace('"%s"' % lits[0], "'%s'" % new, 1)
+            lits = [new] + list(lits[1:])
         else:
             text, pat, kinds, lits = gen_cond(rnd, strict, names, p_fail=p_fail)
             # the outermost parentheses are optional
@@ -402,7 +413,7 @@ def record_batch(seed, nfiles, focus, base_id=0):
             else:
                 mode = rnd.choice(['first_match', 'most_specific'])
             f = gen_file(rnd, mode, focus)
-            txns = gen_txns(rnd, rnd.choice([4, 6, 8]), bool(f['xform']))
+            txns = gen_txns(rnd, rnd.choice([4, 6, 8]), bool(f['xform']), _THEME[0] or TOK)
             n = len(f['rules'])
             ref = [[None] * len(txns) for _ in range(n)]
             for k in range(n):
